@@ -34,6 +34,10 @@ class FalsyRandom(random.Random):
     'all' (every scalar slot does).  Falsy but meaningful values - 0, 0.0, -0.0, False, '', {}, [] -
     must come back as themselves, not as None or as the constructor default."""
     falsy = None
+    # flavour of the values of a case: None (plain Python values), 'numpy' (NumPy scalars: int64,
+    # float64, bool_, arrays), 'none' (optional constructor arguments left at None), 'extreme'
+    # (largest / smallest / subnormal doubles, NaN, +-inf: json.dumps and json.loads accept them)
+    flavor = None
 
     def hit(self):
         return self.falsy == 'all' or (self.falsy == 'half' and self.random() < 0.5)
@@ -43,51 +47,115 @@ def _hit(rnd):
     return getattr(rnd, 'falsy', None) is not None and rnd.hit()
 
 
-def _i(rnd, options):
+def _flavor(rnd):
+    return getattr(rnd, 'flavor', None)
+
+
+def _skip(rnd, opt):
+    """optional constructor argument left at None ('none' flavour)"""
+    return opt and _flavor(rnd) == 'none' and rnd.random() < 0.7
+
+
+def _i(rnd, options, opt=False):
     """integer-valued slot"""
-    return 0 if _hit(rnd) else rnd.choice(options)
+    if _skip(rnd, opt):
+        return None
+    v = 0 if _hit(rnd) else rnd.choice(options)
+    if _flavor(rnd) == 'numpy':
+        import numpy as np
+        return np.int64(v)
+    return v
 
 
 def _b(rnd, value):
     """boolean slot"""
-    return False if _hit(rnd) else value
+    v = False if _hit(rnd) else value
+    if _flavor(rnd) == 'numpy':
+        import numpy as np
+        return np.bool_(v)
+    return v
 
 
-def _s(rnd, value):
+def _s(rnd, value, opt=False):
     """string slot"""
+    if _skip(rnd, opt):
+        return None
     return '' if _hit(rnd) else value
+
+
+def _arr(rnd, values, kinds=('list', 'tuple', 'ndarray')):
+    """array-valued slot in one of the container types the constructor accepts"""
+    import numpy as np
+    kind = 'ndarray' if _flavor(rnd) == 'numpy' and 'ndarray' in kinds else rnd.choice(kinds)
+    if kind == 'tuple':
+        return tuple(values)
+    if kind == 'ndarray':
+        return np.array(values, dtype=float)
+    return list(values)
+
+
+EXTREME = [1.7976931348623157e308, -1.7976931348623157e308, 5e-324, 2.2250738585072014e-308, 1e-300,
+           1.2345678901234567e200, float('nan'), float('inf'), -float('inf')]
+NON_ASCII = ['α', 'β-Al₂O₃', 'Å', 'µ', 'é', '水', '₂', 'Ω⁻']
 
 
 def _name(rnd, stem):
     tail = ''.join(rnd.choice('ABCDEFGHJKLMNPQRSTUVWXYZabcdefghkmnpqrstuvwxyz0123456789')
                    for _ in range(rnd.randint(1, 5)))
+    if rnd.random() < 0.25:
+        tail += rnd.choice(NON_ASCII)          # non-ASCII names, notes, SMILES
     return rnd.choice(['%s%s', '%s_%s', '%s%s(S)', '%s-%s*']) % (stem, tail)
 
 
-def _f(rnd, lo, hi, nz=False):
-    """float slot; nz: the constructor or a neighbouring slot needs a proper number here"""
+def _f(rnd, lo, hi, nz=False, opt=False):
+    """float slot; nz: the constructor or a neighbouring slot needs a proper number here;
+    opt: the constructor argument may be left at None"""
+    if _skip(rnd, opt):
+        return None
     if not nz and _hit(rnd):
         return rnd.choice([0.0, 0.0, -0.0, 0])
-    return rnd.uniform(lo, hi)
+    fl = _flavor(rnd)
+    if not nz and fl == 'extreme' and rnd.random() < 0.5:
+        return rnd.choice(EXTREME)
+    x = rnd.uniform(lo, hi)
+    if fl == 'numpy':
+        import numpy as np
+        return np.float64(x)
+    return x
 
 
 def _notes(rnd):
+    if _skip(rnd, True):
+        return None
     if _hit(rnd):
         return rnd.choice(['', {}])
     r = rnd.random()
-    if r < 0.5:
+    if r < 0.4:
         return 'note %s; "quoted" \\ %d' % (_name(rnd, 'n'), rnd.randint(0, 999))
-    return {'source': _name(rnd, 'src'), 'year': rnd.randint(1900, 2030), 'scale': _f(rnd, 0.1, 9.0)}
+    d = {'source': _name(rnd, 'src'), 'year': rnd.randint(1900, 2030), 'scale': _f(rnd, 0.1, 9.0, nz=True)}
+    if r < 0.7:
+        # nested containers and keys that look like the encoder's own markers (the values are not
+        # class tags: a notes dictionary that IS an encoded object cannot be told apart by design)
+        d.update({'class': rnd.choice(['C2v', 'transition state', '']), 'type': 'dft', '_id': rnd.randint(0, 99),
+                  'refs': [_name(rnd, 'doi'), {'page': rnd.randint(1, 900)}], 'nested': {'a': {'b': [1, 2.5, None, True]}}})
+    return d
 
 
 def _elements(rnd):
+    if _skip(rnd, True):
+        return None
     if _hit(rnd):
         return {}
+    if _flavor(rnd) == 'numpy':
+        import numpy as np
+        return {e: np.int64(rnd.randint(1, 4)) for e in rnd.sample(['H', 'C', 'O', 'N', 'Pt'], rnd.randint(1, 3))}
     els = rnd.sample(['H', 'C', 'O', 'N', 'Pt', 'Ru', 'Cu'], rnd.randint(1, 3))
     return {e: rnd.randint(1, 4) for e in els}
 
 
 def _smiles(rnd):
+    if _skip(rnd, True):
+        return None
     if _hit(rnd):
         return ''
     return rnd.choice(['O', 'C=O', '[H][H]', 'CC(O)=O', 'N#N', 'O=C=O']) + rnd.choice(['', '.[Pt]'])
@@ -101,27 +169,53 @@ class Builder:
         self.schema = schema
         self.rnd = rnd
         self.counter = 0
+        self.shared = 0           # sub-objects used in two places of the tree
+        self._pool = {}
+        self._plain = 0           # > 0 while a refused subtree is rebuilt with plain values
+        self.fallbacks = 0
+
+    SHARABLE = ('StatMech', 'Nasa', 'Shomate', 'Nasa9', 'BEP', 'OmkmBEP', 'References', 'CatSite')
 
     def build(self, node, hint=None):
+        """Real object of an abstract node.  Where the tree holds the same subtree twice (the same
+        species in two reactions or on both sides of one, one References behind several species,
+        one BEP for two reactions) the two places may get ONE object: equal content is required
+        after decoding, identity is not."""
+        c = node['c']
+        if c in self.SHARABLE:
+            key = json.dumps(node, sort_keys=True)
+            pool = self._pool.setdefault(key, [])
+            if pool and not self._plain and self.rnd.random() < 0.4:
+                self.shared += 1
+                return self.rnd.choice(pool)
+            obj = self._build(node, hint)
+            if not self._plain:
+                pool.append(obj)
+            return obj
+        return self._build(node, hint)
+
+    def _build(self, node, hint=None):
         c = node['c']
         kids = {}
         slots = node['k'] if isinstance(node['k'], dict) else {}
         for sl in self.schema[c]:
             sub = slots.get(sl['s'], [])
             kids[sl['s']] = [self.build(k, hint=self._hint(c, sl['s'], node)) for k in sub]
-        mode = getattr(self.rnd, 'falsy', None)
+        mode, flavor = getattr(self.rnd, 'falsy', None), getattr(self.rnd, 'flavor', None)
         try:
             return getattr(self, 'b_' + c)(kids, hint or {})
         except Exception:
-            if mode is None:
+            if mode is None and flavor is None:
                 raise
-            # a falsy value the constructor does not accept: build this subtree with ordinary values
-            self.rnd.falsy = None
-            self.fallbacks = getattr(self, 'fallbacks', 0) + 1
+            # a value the constructor does not accept: build this subtree with ordinary values
+            self.rnd.falsy = self.rnd.flavor = None
+            self.fallbacks += 1
+            self._plain += 1
             try:
-                return self.build(node, hint)
+                return self._build(node, hint)
             finally:
-                self.rnd.falsy = mode
+                self._plain -= 1
+                self.rnd.falsy, self.rnd.flavor = mode, flavor
 
     def _hint(self, c, slot, node):
         h = {}
@@ -167,7 +261,7 @@ class Builder:
 
     def b_FreeTrans(self, kids, hint):
         from pmutt.statmech.trans import FreeTrans
-        return FreeTrans(n_degrees=_i(self.rnd, [1, 2]), molecular_weight=_f(self.rnd, 2., 200.))
+        return FreeTrans(n_degrees=_i(self.rnd, [1, 2, 3]), molecular_weight=_f(self.rnd, 2., 200., opt=True))
 
     def _wavenumbers(self, n=None):
         r = self.rnd
@@ -179,15 +273,15 @@ class Builder:
         from pmutt.statmech.vib import HarmonicVib
         w = self._wavenumbers()
         w = w + [-_f(self.rnd, 50., 900., nz=True)] if w else w
-        return HarmonicVib(vib_wavenumbers=w, imaginary_substitute=_f(self.rnd, 20., 90.))
+        return HarmonicVib(vib_wavenumbers=_arr(self.rnd, w), imaginary_substitute=_f(self.rnd, 20., 90., opt=True))
 
     def b_QRRHOVib(self, kids, hint):
         from pmutt.statmech.vib import QRRHOVib
         r = self.rnd
         w = self._wavenumbers()
         w = w + [-_f(r, 50., 900., nz=True)] if w else w
-        return QRRHOVib(vib_wavenumbers=w, Bav=_f(r, 2e-44, 9e-44), v0=_f(r, 60., 190.),
-                        alpha=_i(r, [2, 3, 5]), imaginary_substitute=_f(r, 20., 90.))
+        return QRRHOVib(vib_wavenumbers=_arr(r, w), Bav=_f(r, 2e-44, 9e-44), v0=_f(r, 60., 190.),
+                        alpha=_i(r, [2, 3, 4, 5]), imaginary_substitute=_f(r, 20., 90., opt=True))
 
     def b_EinsteinVib(self, kids, hint):
         from pmutt.statmech.vib import EinsteinVib
@@ -202,17 +296,22 @@ class Builder:
     def b_RigidRotor(self, kids, hint):
         from pmutt.statmech.rot import RigidRotor
         r = self.rnd
-        if r.random() < 0.5:
-            return RigidRotor(symmetrynumber=_i(r, [2, 3, 12]), geometry='nonlinear',
-                              rot_temperatures=[_f(r, 0.5, 60., nz=True) for _ in range(3)])
-        return RigidRotor(symmetrynumber=_i(r, [2, 3]), geometry='linear',
-                          rot_temperatures=[_f(r, 0.5, 60., nz=True)])
+        from pmutt import constants as c
+        if _skip(r, True):
+            return RigidRotor(symmetrynumber=_i(r, [1, 2, 3]))     # temperatures and geometry left at None
+        geo = r.choice(['nonlinear', 'linear', 'monatomic'])
+        n = {'nonlinear': 3, 'linear': 1, 'monatomic': 0}[geo]
+        sym = _i(r, [1, 2, 3, 12])
+        if r.random() < 0.3:
+            sym = r.choice(sorted(c.symmetry_dict))      # point group given as a string
+        return RigidRotor(symmetrynumber=sym, geometry=geo,
+                          rot_temperatures=_arr(r, [_f(r, 0.5, 60., nz=True) for _ in range(n)]))
 
     def b_GroundStateElec(self, kids, hint):
         from pmutt.statmech.elec import GroundStateElec
         r = self.rnd
-        return GroundStateElec(potentialenergy=_f(r, -90., -1.), spin=(0.0 if _hit(r) else r.choice([0.5, 1., 1.5])),
-                               D0=_f(r, 0.5, 6.))
+        return GroundStateElec(potentialenergy=_f(r, -90., -1.), spin=(0.0 if _hit(r) else r.choice([0., 0.5, 1., 1.5])),
+                               D0=_f(r, 0.5, 6., opt=True))
 
     def b_PiecewiseCovEffect(self, kids, hint):
         from pmutt.mixture.cov import PiecewiseCovEffect
@@ -220,7 +319,7 @@ class Builder:
         n = r.randint(1, 3)
         iv = [0.] + sorted(_f(r, 0.05, 0.95, nz=True) for _ in range(n - 1))
         return PiecewiseCovEffect(name_i=self._uid('I'), name_j=self._uid('J'), intervals=iv,
-                                  slopes=[_f(r, -30., 30.) for _ in iv], name=self._uid('cov'))
+                                  slopes=[_f(r, -30., 30.) for _ in iv], name=_s(r, self._uid('cov'), opt=True))
 
     def b_CatSite(self, kids, hint):
         from pmutt.chemkin import CatSite
@@ -232,9 +331,18 @@ class Builder:
     def b_BEP(self, kids, hint):
         from pmutt.reaction.bep import BEP
         r = self.rnd
-        return BEP(slope=_f(r, 0.1, 0.95), intercept=_f(r, 1., 40.), name=self._uid('bep'),
-                   descriptor=r.choice(['rev_delta_H', 'delta_E', 'reactants_H', 'products_E']),
-                   elements=_elements(r), notes=_notes(r))
+        return BEP(**self._bep_kwargs())
+
+    def _bep_kwargs(self):
+        r = self.rnd
+        return dict(slope=_f(r, 0.1, 0.95), intercept=_f(r, 1., 40.), name=_s(r, self._uid('bep'), opt=True),
+                    descriptor=r.choice(['delta_H', 'rev_delta_H', 'reactants_H', 'products_H', 'delta_E',
+                                         'rev_delta_E', 'reactants_E', 'products_E']),
+                    elements=_elements(r), notes=_notes(r))
+
+    def b_OmkmBEP(self, kids, hint):
+        from pmutt.omkm.reaction import BEP
+        return BEP(direction=_s(self.rnd, self.rnd.choice(['synthesis', 'cleavage']), opt=True), **self._bep_kwargs())
 
     def b_SingleNasa9(self, kids, hint):
         import numpy as np
@@ -295,11 +403,11 @@ class Builder:
         mid = lo + _f(r, 500., 900., nz=True)
         cat = kids['cat_site'][0] if kids.get('cat_site') else None
         return Nasa(T_low=lo, T_mid=mid, T_high=mid + _f(r, 900., 2500., nz=True),
-                    a_low=[_f(r, 2., 6., nz=True), _f(r, -3e-3, 3e-3), _f(r, -7e-6, 7e-6), _f(r, -6e-9, 6e-9),
-                           _f(r, -2e-12, 2e-12), _f(r, -4e4, 4e4), _f(r, -9., 9.)],
-                    a_high=[_f(r, 2., 6., nz=True), _f(r, -3e-3, 3e-3), _f(r, -7e-7, 7e-7), _f(r, -6e-10, 6e-10),
-                            _f(r, -2e-14, 2e-14), _f(r, -4e4, 4e4), _f(r, -9., 9.)],
-                    cat_site=cat, n_sites=_i(r, [2, 3, 4]), **kw)
+                    a_low=_arr(r, [_f(r, 2., 6., nz=True), _f(r, -3e-3, 3e-3), _f(r, -7e-6, 7e-6), _f(r, -6e-9, 6e-9),
+                           _f(r, -2e-12, 2e-12), _f(r, -4e4, 4e4), _f(r, -9., 9.)]),
+                    a_high=_arr(r, [_f(r, 2., 6., nz=True), _f(r, -3e-3, 3e-3), _f(r, -7e-7, 7e-7), _f(r, -6e-10, 6e-10),
+                            _f(r, -2e-14, 2e-14), _f(r, -4e4, 4e4), _f(r, -9., 9.)]),
+                    cat_site=cat, n_sites=_i(r, [1, 2, 3, 4], opt=True), **kw)
 
     def b_Shomate(self, kids, hint):
         import numpy as np
@@ -309,8 +417,8 @@ class Builder:
         lo = _f(r, 150., 500.)
         a = [_f(r, 10., 60., nz=True), _f(r, -20., 20.), _f(r, -10., 10.), _f(r, -4., 4.), _f(r, -1., 1.),
              _f(r, -400., 100.), _f(r, 100., 300.), _f(r, -400., 100.)]
-        return Shomate(T_low=lo, T_high=lo + _f(r, 900., 2500., nz=True), a=np.array(a),
-                       units=r.choice(['kJ/mol/K', 'cal/mol/K', 'eV/K']), n_sites=_i(r, [2, 3, 4]), **kw)
+        return Shomate(T_low=lo, T_high=lo + _f(r, 900., 2500., nz=True), a=_arr(r, a),
+                       units=r.choice(r_units()), n_sites=_i(r, [1, 2, 3, 4], opt=True), **kw)
 
     def b_Nasa9(self, kids, hint):
         import numpy as np
@@ -335,7 +443,7 @@ class Builder:
             lo = hi
         for n9, w in zip(nasas, order):
             n9.T_low, n9.T_high = windows[w]
-        return Nasa9(nasas=nasas, n_sites=_i(r, [2, 3, 4]), **kw)
+        return Nasa9(nasas=nasas, n_sites=_i(r, [1, 2, 3, 4], opt=True), **kw)
 
     def b_Reference(self, kids, hint):
         from pmutt.empirical.references import Reference
@@ -366,13 +474,19 @@ class Builder:
     # ---- reactions
     def _rxn_kwargs(self, kids):
         r = self.rnd
-        kw = {'reactants': kids['reactants'], 'reactants_stoich': [r.choice([1., 2., 0.5, 1.5]) for _ in kids['reactants']],
-              'products': kids['products'], 'products_stoich': [r.choice([1., 2., 0.5, 3.]) for _ in kids['products']],
+        reactants, products = list(kids['reactants']), list(kids['products'])
+        kw = {'reactants': reactants, 'reactants_stoich': _arr(r, [r.choice([1., 2., 0.5, 1.5, 1]) for _ in reactants]),
+              'products': products, 'products_stoich': _arr(r, [r.choice([1., 2., 0.5, 3., 2]) for _ in products]),
               'notes': _notes(r)}
         if kids.get('transition_state'):
             kw['transition_state'] = kids['transition_state']
-            kw['transition_state_stoich'] = [r.choice([1., 2.]) for _ in kids['transition_state']]
+            kw['transition_state_stoich'] = _arr(r, [r.choice([1., 2.]) for _ in kids['transition_state']])
         return kw
+
+    def _share_between(self, reactions):
+        """Two reactions of a set use the same species object (equal content is required after
+        decoding, identity is not)."""
+        return reactions          # sharing is done in build(): identical subtrees may be one object
 
     def b_Reaction(self, kids, hint):
         from pmutt.reaction import Reaction
@@ -381,25 +495,48 @@ class Builder:
     def b_ChemkinReaction(self, kids, hint):
         from pmutt.reaction import ChemkinReaction
         r = self.rnd
-        return ChemkinReaction(beta=_f(r, 0.1, 0.9), is_adsorption=_b(r, True), sticking_coeff=_f(r, 0.05, 0.45),
+        return ChemkinReaction(beta=_f(r, 0.1, 0.9), is_adsorption=_b(r, r.random() < 0.7),
+                               sticking_coeff=_f(r, 0.05, 0.45),
                                **self._rxn_kwargs(kids))
 
     def b_SurfaceReaction(self, kids, hint):
         from pmutt.omkm.reaction import SurfaceReaction
         r = self.rnd
-        return SurfaceReaction(id=self._uid('r_'), is_adsorption=_b(r, True), A=_f(r, 1e10, 9e13),
-                               beta=_f(r, 0.1, 0.9), Ea=_f(r, 1., 40.), sticking_coeff=_f(r, 0.05, 0.45),
-                               direction=_s(r, r.choice(['synthesis', 'cleavage'])), use_motz_wise=_b(r, True),
+        return SurfaceReaction(id=_s(r, self._uid('r_'), opt=True), is_adsorption=_b(r, r.random() < 0.6),
+                               A=_f(r, 1e10, 9e13, opt=True), beta=_f(r, 0.1, 0.9, opt=True), Ea=_f(r, 1., 40., opt=True),
+                               sticking_coeff=_f(r, 0.05, 0.45, opt=True),
+                               direction=_s(r, r.choice(['synthesis', 'cleavage']), opt=True),
+                               use_motz_wise=_b(r, r.random() < 0.6),
                                **self._rxn_kwargs(kids))
 
     def b_Reactions(self, kids, hint):
         from pmutt.reaction import Reactions
-        return Reactions(reactions=kids['reactions'])
+        return Reactions(reactions=self._share_between(kids['reactions']))
+
+    def b_Network(self, kids, hint):
+        from pmutt.reaction.network import Network
+        return Network(reactions=self._share_between(kids['reactions']))
 
     def b_PhaseDiagram(self, kids, hint):
         from pmutt.reaction.phasediagram import PhaseDiagram
-        return PhaseDiagram(reactions=kids['reactions'],
-                            norm_factors=[_f(self.rnd, 1.5, 9.) for _ in kids['reactions']])
+        rxns = self._share_between(kids['reactions'])
+        if _skip(self.rnd, True):
+            return PhaseDiagram(reactions=rxns)           # norm_factors left at its default
+        return PhaseDiagram(reactions=rxns, norm_factors=_arr(self.rnd, [_f(self.rnd, 1.5, 9.) for _ in rxns]))
+
+    def b_EmpiricalBase(self, kids, hint):
+        from pmutt.empirical import EmpiricalBase
+        return EmpiricalBase(**self._emp_kwargs(kids, hint, 'EB'))
+
+    def b_ExtendedLSR(self, kids, hint):
+        from pmutt.statmech.lsr import ExtendedLSR
+        r = self.rnd
+        rxns = kids['reactions']
+        kw = dict(slopes=_arr(r, [_f(r, 0.1, 0.9) for _ in rxns]), intercept=_f(r, -20., 20.), reactions=rxns,
+                  surf_species=kids['surf_species'], gas_species=kids['gas_species'])
+        if 'notes' in __import__('inspect').signature(ExtendedLSR.__init__).parameters:
+            kw['notes'] = _notes(r)
+        return ExtendedLSR(**kw)
 
     def b_LSR(self, kids, hint):
         from pmutt.statmech.lsr import LSR
@@ -409,6 +546,22 @@ class Builder:
 
 
 GAS_SPELLINGS = ['g', 'G', 'gas', 'Gas', 'GAS']
+_R_UNITS = []
+
+
+def r_units():
+    """every unit string pmutt.constants.R accepts (the values Shomate.units may take)"""
+    if not _R_UNITS:
+        from pmutt import constants as c
+        for u in ('J/mol/K', 'kJ/mol/K', 'L kPa/mol/K', 'cm3 kPa/mol/K', 'm3 Pa/mol/K', 'cm3 MPa/mol/K',
+                  'm3 bar/mol/K', 'L bar/mol/K', 'L torr/mol/K', 'cal/mol/K', 'kcal/mol/K', 'L atm/mol/K',
+                  'cm3 atm/mol/K', 'eV/K', 'Eh/K', 'Ha/K'):
+            try:
+                c.R(u)
+                _R_UNITS.append(u)
+            except Exception:
+                pass
+    return _R_UNITS
 
 
 def make_references(refs, rnd, state):
@@ -438,8 +591,12 @@ def make_references(refs, rnd, state):
 SLOT_ATTR = {}          # (class, slot) -> attribute name when it differs from the slot name
 
 
+QUALIFIED = {'pmutt.omkm.reaction.BEP': 'OmkmBEP'}       # class names that occur twice in pmutt
+
+
 def short_class(o):
-    return type(o).__name__
+    t = type(o)
+    return QUALIFIED.get('%s.%s' % (t.__module__, t.__name__), t.__name__)
 
 
 def is_pmutt_obj(o):
@@ -453,7 +610,9 @@ def tag_class(tag):
     if not isinstance(tag, str):
         return 'none'
     m = re.match(r"<class '([\w.]+)'>", tag)
-    return m.group(1).split('.')[-1] if m else 'none'
+    if not m:
+        return 'none'
+    return QUALIFIED.get(m.group(1), m.group(1).split('.')[-1])
 
 
 def tag_resolves(d):
@@ -593,6 +752,11 @@ RXN = ['get_delta_HoRT', 'get_delta_SoR', 'get_delta_GoRT', 'get_delta_CpoR', 'g
        'get_HoRT_act', 'get_GoRT_act', 'get_SoR_act', 'get_A']
 
 
+# the dimensional wrappers (units forwarded; per-mass units need the composition)
+DIMENSIONAL = [('get_H:kJ/mol', 'get_H', {'units': 'kJ/mol'}), ('get_S:J/mol/K', 'get_S', {'units': 'J/mol/K'}),
+               ('get_G:eV', 'get_G', {'units': 'eV'}), ('get_Cp:J/g/K', 'get_Cp', {'units': 'J/g/K'})]
+
+
 def getter_plan(cls):
     """[(label, method, extra kwargs)] for one class; state-point kwargs are added by the caller."""
     if cls in ('EmptyMode', 'ConstantMode', 'FreeTrans', 'HarmonicVib', 'QRRHOVib', 'EinsteinVib',
@@ -601,9 +765,17 @@ def getter_plan(cls):
     if cls == 'GroundStateElec':
         return [(g, g, {}) for g in THERMO] + [('get_q:full', 'get_q', {'ignore_q_elec': False})]
     if cls == 'StatMech':
-        return [(g, g, {}) for g in THERMO] + [('get_EoRT', 'get_EoRT', {})]
-    if cls in ('Nasa', 'Shomate', 'Nasa9', 'SingleNasa9'):
-        return [(g, g, {}) for g in ('get_CpoR', 'get_HoRT', 'get_SoR', 'get_GoRT')]
+        return ([(g, g, {}) for g in THERMO] + [('get_EoRT', 'get_EoRT', {})] + DIMENSIONAL +
+                [('get_HoRT:verbose', 'get_HoRT', {'verbose': True}),
+                 ('get_SoR:no_references', 'get_SoR', {'use_references': False}),
+                 ('get_EoRT:ZPE', 'get_EoRT', {'include_ZPE': True}),
+                 ('get_q:noZPE', 'get_q', {'include_ZPE': False})])
+    if cls in ('Nasa', 'Shomate', 'Nasa9'):
+        return [(g, g, {}) for g in ('get_CpoR', 'get_HoRT', 'get_SoR', 'get_GoRT')] + DIMENSIONAL
+    if cls == 'SingleNasa9':
+        return [(g, g, {}) for g in ('get_CpoR', 'get_HoRT', 'get_SoR')]
+    if cls == 'ExtendedLSR':
+        return [(g, g, {}) for g in ('get_UoRT', 'get_HoRT', 'get_GoRT', 'get_SoR')]
     if cls == 'References':
         return [('get_HoRT', 'get_HoRT', {'descriptors': {'H': 2, 'O': 1}})]
     if cls == 'LSR':
@@ -611,6 +783,12 @@ def getter_plan(cls):
     if cls in ('Reaction', 'ChemkinReaction', 'SurfaceReaction'):
         out = [(g, g, {}) for g in RXN]
         out += [(g + ':rev', g, {'rev': True}) for g in ('get_delta_HoRT', 'get_GoRT_act')]
+        out += [('get_delta_H:kcal/mol', 'get_delta_H', {'units': 'kcal/mol'}),
+                ('get_delta_G:kJ/mol:rev', 'get_delta_G', {'units': 'kJ/mol', 'rev': True}),
+                ('get_G_act:eV', 'get_G_act', {'units': 'eV'}),
+                ('get_delta_GoRT:act', 'get_delta_GoRT', {'act': True}),
+                ('get_E_act:kcal/mol', 'get_E_act', {'units': 'kcal/mol'}),
+                ('get_HoRT_state:products', 'get_HoRT_state', {'state': 'products'})]
         return out
     if cls == 'IdealGasEOS':
         return [('get_V', 'get_V', {}), ('get_T', 'get_T', {}), ('get_P', 'get_P', {}), ('get_n', 'get_n', {})]
@@ -889,6 +1067,7 @@ def _extra_gas_noadj(cls_name, phase):
         tree = {'c': cls_name, 'k': {'model': [], 'cat_site': [], 'misc_models': [],
                                      'nasas': [{'c': 'SingleNasa9', 'k': []}, {'c': 'SingleNasa9', 'k': []}]}}
         b = Builder(_EXTRA_SCHEMA, rnd)
+        b._plain = 1          # hand-made objects: no automatic sharing of equal subtrees
         b._phase_option = lambda has_adj, need_str: (phase, False)
         return b.build(tree)
     return get
@@ -897,6 +1076,7 @@ def _extra_gas_noadj(cls_name, phase):
 def _extra_references(state, inside_statmech):
     def get(rnd):
         b = Builder(_EXTRA_SCHEMA, rnd)
+        b._plain = 1          # hand-made objects: no automatic sharing of equal subtrees
         ref = {'c': 'Reference', 'k': {'model': [_min_statmech()], 'misc_models': []}}
         refs = [b.build(ref), b.build(ref), b.build(ref)]
         base = [{'H': 2}, {'O': 2}, {'H': 2, 'O': 1}]
@@ -928,6 +1108,7 @@ def _extra_nasa9(n, how):
     def get(rnd):
         tree = {'c': 'Nasa9', 'k': {'nasas': [{'c': 'SingleNasa9', 'k': []}] * n, 'model': [], 'misc_models': []}}
         b = Builder(_EXTRA_SCHEMA, rnd)
+        b._plain = 1          # hand-made objects: no automatic sharing of equal subtrees
         b._hint = lambda c, slot, node: {}
         obj = b.b_Nasa9({'nasas': [b.build(t) for t in tree['k']['nasas']], 'misc_models': []}, {'order': how})
         return obj
@@ -936,6 +1117,47 @@ def _extra_nasa9(n, how):
 
 for _n, _how in ((2, 'descending'), (3, 'descending'), (3, 'shuffled'), (4, 'shuffled'), (4, 'ascending')):
     EXTRAS['nasa9:%d:%s' % (_n, _how)] = _extra_nasa9(_n, _how)
+def _extra_shared(kind):
+    """The same sub-object used in several places: a species in two reactions and on both sides of
+    one, one References object behind every species, one BEP as the transition state of two reactions."""
+    def get(rnd):
+        from pmutt.reaction import Reaction, Reactions
+        from pmutt.omkm.reaction import SurfaceReaction
+        b = Builder(_EXTRA_SCHEMA, rnd)
+        b._plain = 1          # hand-made objects: no automatic sharing of equal subtrees
+        a, c, d = b.build(_min_statmech()), b.build(_min_statmech()), b.build(_min_statmech())
+        if kind == 'species':
+            r1 = Reaction(reactants=[a], reactants_stoich=[1.], products=[c], products_stoich=[1.])
+            r2 = Reaction(reactants=[c, a], reactants_stoich=[1., 2.], products=[d, a], products_stoich=[1., 1.],
+                          transition_state=[a], transition_state_stoich=[1.])
+            return Reactions([r1, r2])
+        if kind == 'references':
+            ref = {'c': 'Reference', 'k': {'model': [_min_statmech()], 'misc_models': []}}
+            refs = [b.build(ref), b.build(ref)]
+            for i, x in enumerate(refs):
+                x.elements = [{'H': 2}, {'O': 2}][i]
+                x.T_ref = 298.15
+            shared = make_references(refs, rnd, 'fitted')
+            for x in (a, c, d):
+                x.references = shared
+                x.elements = {'H': 2, 'O': 1}
+            return Reactions([Reaction(reactants=[a, c], reactants_stoich=[1., 1.], products=[d], products_stoich=[2.])])
+        bep = b.build({'c': 'OmkmBEP', 'k': []})
+        rs = [SurfaceReaction(reactants=[x], reactants_stoich=[1.], products=[d], products_stoich=[1.],
+                              transition_state=[bep], transition_state_stoich=[1.], direction=dr, id=i)
+              for x, dr, i in ((a, 'cleavage', 'r_1'), (c, 'synthesis', 'r_2'))]
+        return Reactions(rs)
+    return get
+
+
+def _extra_unnamed_statmech(rnd):
+    from pmutt.statmech import StatMech
+    return StatMech()                                  # every argument at its default
+
+
+for _k in ('species', 'references', 'bep'):
+    EXTRAS['shared:%s' % _k] = _extra_shared(_k)
+EXTRAS['statmech_defaults'] = _extra_unnamed_statmech
 for _st in ('explicit', 'stale'):
     EXTRAS['references:%s' % _st] = _extra_references(_st, False)
     EXTRAS['statmech_references:%s' % _st] = _extra_references(_st, True)
@@ -947,8 +1169,10 @@ def run_lifecycle(case, schema, attrs):
     """Build the object of one abstract tree and take it through the lifecycle.
     Returns (events, mismatches)."""
     from pmutt.io.json import pmuttEncoder, json_to_pmutt
+    obs = {}
     rnd = FalsyRandom(case['seed'])
     rnd.falsy = case.get('falsy')
+    rnd.flavor = case.get('flavor')
     walker = Walker(schema, attrs)
     if 'extra' in case:
         _EXTRA_SCHEMA.clear()
@@ -957,10 +1181,12 @@ def run_lifecycle(case, schema, attrs):
         tree = tree_of(obj, schema)
     else:
         tree = case['tree']
-        obj = Builder(schema, rnd).build(tree)
+        builder = Builder(schema, rnd)
+        obj = builder.build(tree)
+        obs['_shared'] = builder.shared
+        obs['_fallbacks'] = builder.fallbacks
     events = [{'ev': 'begin', 'root': tree['c']}]
     mism = []
-    obs = {}
     exp_shape = walker.expected_shape(tree)
     text = None
     dict_given = dict0 = None
